@@ -67,9 +67,29 @@ func TestC13Durability(t *testing.T) {
 		}
 		runTracedUploads(r, seed, pick(6, 10), true)
 	}
+	// Injected system-call errors (the tracer makes the K-th write / fsync /
+	// rename / open / chmod of a thread fail): an Upload that still returns
+	// success must be complete and durable, and whatever a key holds afterwards
+	// must be the complete body of one upload of that key.
+	faults := []string{"write:error=ENOSPC", "write:error=EIO", "fsync:error=EIO", "renameat:error=EIO", "renameat:error=ENOSPC", "openat:error=EMFILE", "fchmod:error=EPERM", "close:error=EIO"}
+	for i := 0; i < pick(16, 160); i++ {
+		seed := int64(rng.U64() >> 1)
+		f := fmt.Sprintf("%s:when=%d", faults[i%len(faults)], 1+rng.Intn(pickOne(rng, []int{3, 8, 20})))
+		if rng.Intn(3) == 0 {
+			f += "+" // every occurrence from the K-th on
+		}
+		if !mine(i) {
+			continue
+		}
+		runTracedUploadsFault(r, seed, pick(8, 12), false, f)
+	}
 }
 
 func runTracedUploads(r *Run, seed int64, uploads int, mkdirRace bool) {
+	runTracedUploadsFault(r, seed, uploads, mkdirRace, "")
+}
+
+func runTracedUploadsFault(r *Run, seed int64, uploads int, mkdirRace bool, fault string) {
 	base, _ := os.MkdirTemp(scratchRoot(), "fs-")
 	defer func() { unlockTree(base); os.RemoveAll(base) }()
 	dir := filepath.Join(base, "backend")
@@ -84,10 +104,15 @@ func runTracedUploads(r *Run, seed int64, uploads int, mkdirRace bool) {
 		race = "1"
 		info["mkdirat_exit_delayed_us"] = 40000
 	}
+	if fault != "" {
+		args = append(args, "-e", "inject="+fault)
+		info["injected"] = fault
+		r.Count("fault_injection_runs", 1)
+	}
 	args = append(args, "-o", trace, os.Args[0], "-test.run", "^TestHelperFS$")
 	cmd := exec.Command("strace", args...)
-	cmd.Env = append(os.Environ(), "VERIF_FS_RACE="+race, "VERIF_HELPER=fshelper", "VERIF_FS_DIR="+dir, "VERIF_FS_MARKERS="+markers, fmt.Sprint("VERIF_FS_SEED=", seed), fmt.Sprint("VERIF_FS_UPLOADS=", uploads), "VERIF_OUT=")
-	if out, err := cmd.CombinedOutput(); err != nil {
+	cmd.Env = append(os.Environ(), "VERIF_FS_FAULTS="+fault, "VERIF_FS_RACE="+race, "VERIF_HELPER=fshelper", "VERIF_FS_DIR="+dir, "VERIF_FS_MARKERS="+markers, fmt.Sprint("VERIF_FS_SEED=", seed), fmt.Sprint("VERIF_FS_UPLOADS=", uploads), "VERIF_OUT=")
+	if out, err := cmd.CombinedOutput(); err != nil && fault == "" {
 		r.Inconcl("traced helper failed: %v: %s", err, lastBytes(out, 300))
 		return
 	}
@@ -103,7 +128,16 @@ func runTracedUploads(r *Run, seed int64, uploads int, mkdirRace bool) {
 	r.Count("upload_returns_checked", int64(rep.Ends))
 	r.Count("fsyncs_seen", int64(rep.Fsyncs))
 	r.Count("mkdirs_seen", int64(rep.Mkdirs))
-	if rep.Ends == 0 || rep.Renames == 0 || rep.Fsyncs == 0 {
+	if fault != "" {
+		failed := 0
+		for _, u := range rep.Uploads {
+			if u.end > 0 && !u.ok {
+				failed++
+			}
+		}
+		r.Count("uploads_failed_under_injection", int64(failed))
+		r.DistinctKey(fmt.Sprintf("inject/%s/failed>0=%v", strings.SplitN(fault, ":when", 2)[0], failed > 0))
+	} else if rep.Ends == 0 || rep.Renames == 0 || rep.Fsyncs == 0 {
 		r.Inconcl("trace shows %d upload returns, %d renames, %d fsyncs: checker blind", rep.Ends, rep.Renames, rep.Fsyncs)
 	}
 	for _, p := range rep.Problems {
@@ -131,6 +165,19 @@ func runTracedUploads(r *Run, seed int64, uploads int, mkdirRace bool) {
 			anyOK = anyOK || u.ok
 		}
 		if !anyOK {
+			// no upload of this key reported success: the key is absent or holds
+			// the complete body of one of them (applied although an error was
+			// reported); anything else is a torn object under a final name
+			if err == nil {
+				sum := fmt.Sprintf("%x", sha256.Sum256(b))
+				match := false
+				for _, u := range us {
+					match = match || u.sha == sum
+				}
+				if !match {
+					r.Violate("torn-object-after-failed-upload", info, "%s holds %d bytes that are not the complete body of any upload of that key, after uploads that all reported failure", key, len(b))
+				}
+			}
 			continue
 		}
 		if err != nil {
